@@ -220,6 +220,11 @@ def run_shard(binary, test, outdir, env_extra, shard, nshard, timeout_s, gomaxpr
             crashes.append({"case": None, "cause": {"kind": "harness"}, "head": "child produced no case", "out": outf})
             break
         cause, head = classify_crash(text)
+        bc = os.path.join(outdir, "breadcrumbs.log")
+        if os.path.exists(bc):
+            last = [l for l in open(bc, errors="replace").read().split("\n") if l.startswith("case %d:" % cases[-1])][-3:]
+            if last:
+                head += "\n  last inputs before the crash: " + " || ".join(last)[:3000]
         crashes.append({"case": cases[-1], "cause": cause, "head": head, "out": outf})
         start = cases[-1] + 1
         if attempt >= 25:
@@ -370,7 +375,7 @@ def do_check(prop, cfg, tier, seed, workdir, ov, t0, mutant, only_mon):
     for m in monitors:
         key = (m.get("pkg", "pubsub"), bool(m.get("race")))
         nshard = min(m.get("shards", 16), ncpu)
-        timeout_s = m.get("timeout_s", {"quick": 900, "thorough": 5400})[tier] if isinstance(m.get("timeout_s"), dict) else m.get("timeout_s", 900 if tier == "quick" else 5400)
+        timeout_s = m.get("timeout_s", {"quick": 300, "thorough": 3600})[tier] if isinstance(m.get("timeout_s"), dict) else m.get("timeout_s", 300 if tier == "quick" else 3600)
         gmp = m.get("gomaxprocs", 1 if m.get("race") and m.get("bubble", True) else 2)
         env_extra = {"VERIF_SEED": str(seed), "VERIF_TIER": tier}
         env_extra.update(m.get("env", {}))
